@@ -14,7 +14,7 @@ CHECKS = {
         "size, shuffle and sensor count that the ranking is a permutation and the selection a duplicate-free prefix of the "
         "reported length; run_rankOK (Props/C01Life.lean, induction over the operations of the SSPOR state machine) lifts this to every history of accepted calls "
         "– fits on data of any widths, setter calls, mode updates, the basis object fitted behind the model's back, pickled copies: the ranking is a permutation of the "
-        "sensor rows of the model's own basis matrix (rejected_fit_breaks_rankOK shows why rejected fits are excluded: finding F11); "
+        "sensor rows of the model's own basis matrix, and run_countOK / selected_length_is_count that the number of selected sensors is the reported count (rejected_fit_breaks_rankOK shows why rejected fits are excluded: finding F11); "
         "the bookkeeping model and the state machine are replayed against the real CCQR/GQR/SSPOR runs on every invocation.",
    ref="DESIGN.md §5 C01",
    note="Generated/Ranking.lean (harness/translate_ranking.py): pipe_ssporFit – the statements after the optimizer call are tailShuffle σ m for every ranking, mode count, sensor count and permutation oracle (seed must reach np.random.default_rng unmodified); selection_<method>_k – every slice of ranked_sensors_ in predict / get_selected_sensors is selectLead n_sensors. LAPACK geqp3's pivot vector (QR) is a parameter, checked directly on each sample; numpy's Generator.permutation is the σ parameter."),
